@@ -156,7 +156,7 @@ func run(c *hl.Ctx) error {
 	}
 	// (a) full layouts
 	var jobs []lay.Job
-	nProg := lay.DevN(c.Pick(300, 30000))
+	nProg := lay.DevN(c.Pick(300, 8000))
 	weights := []string{"nested", "nested", "nested", "grid", "grid", "seq", "seq", "near", "near", "core", "styled", "boards"}
 	for i := 0; i < nProg; i++ {
 		p := weights[i%len(weights)]
@@ -165,8 +165,12 @@ func run(c *hl.Ctx) error {
 			jobs = append(jobs, lay.Job{Src: src, Engine: e, Tag: p})
 		}
 	}
-	res := lay.RunAll(jobs, runtime.NumCPU())
+	res := lay.RunAll(jobs, runtime.NumCPU(), lay.QuickBudget(c.Quick()), 32)
 	for i, rr := range res {
+		if rr == nil {
+			c.Count("budget:not-run")
+			continue
+		}
 		c.Emit(structCase(rr))
 		c.Count("struct:" + jobs[i].Tag + ":" + rr.Engine)
 		calls := 0
